@@ -37,7 +37,7 @@ theorem prov_step {cfg : Cfg} {s s' : State} {a : Action} (hg : cfg.std = true) 
   · exact prov_dret hg h hi hs
   · exact prov_gpass hg h hi hs
   · exact prov_nstart h hi hs
-  · exact prov_nrun h hi hs
+  · exact prov_nrun hg h hi hs
   · exact prov_nwrite h hi hs
   · cases hs; exact prov_ack h
   · exact prov_cancel h hs
